@@ -76,8 +76,7 @@ def main():
                 'non-trivial = distinct (score, cut set, separator) with >= 2 fragments')
     run.add_tlc(tlc.run_tlc('MC_Transform', 'MC_Transform.cfg', workers=16, timeout=3000, label='MC_Transform(ConcatLaw)'))
     if a.replay_case:
-        case = a.replay_case['case']
-        sess = [sess_concat(case['seed'], sep='' if "sep=''" in (case.get('tags') or []) else '\n')]
+        sess = docs.replay_sessions(a.replay_case)
     else:
         n = 60 if quick else 1200
         sess = docs.build_sessions(sess_concat, [a.seed * 1000003 + i for i in range(n)], sep='\n')
